@@ -104,6 +104,8 @@ where
     count: TypedFunc<NoCtx, fn(List<T>) -> u64>,
     copy: TypedFunc<NoCtx, fn(List<T>) -> List<T>>,
     pushpush: TypedFunc<NoCtx, fn(List<T>, T, T) -> u64>,
+    pluseq: TypedFunc<NoCtx, fn(List<T>, T, T) -> List<T>>,
+    growfor: TypedFunc<NoCtx, fn(List<T>, u64) -> u64>,
 }
 
 fn script_src(ty: &str) -> String {
@@ -143,6 +145,23 @@ fn s_pushpush(l: List[{ty}], a: {ty}, b: {ty}) -> u64 {{
     l.push(b);
     alias.len()
 }}
+fn s_pluseq(l: List[{ty}], a: {ty}, b: {ty}) -> List[{ty}] {{
+    let t = l;
+    t += [a];
+    t += [a, b];
+    t
+}}
+fn s_growfor(l: List[{ty}], cap: u64) -> u64 {{
+    let alias = l;
+    let n = 0u64;
+    for x in l {{
+        n = n + 1;
+        if alias.len() < cap {{
+            alias.push(x);
+        }}
+    }}
+    n
+}}
 "
     )
 }
@@ -176,6 +195,8 @@ where
             count: g!("s_count"),
             copy: g!("s_copy"),
             pushpush: g!("s_pushpush"),
+            pluseq: g!("s_pluseq"),
+            growfor: g!("s_growfor"),
             _pkg: p,
         })
     }
@@ -231,7 +252,7 @@ where
         if op.len() < 5 {
             continue;
         }
-        let (code, a, b, v, via) = (op[0] % 18, op[1] as usize % SLOTS, op[2] as usize % SLOTS, op[3] as u64 % 7, op[4] % 2 == 1);
+        let (code, a, b, v, via) = (op[0] % 21, op[1] as usize % SLOTS, op[2] as usize % SLOTS, op[3] as u64 % 7, op[4] % 2 == 1);
         let how = if via { "script" } else { "rust" };
         st.ops += 1;
         if std::env::var_os("VERIF_TRACE").is_some() {
@@ -440,6 +461,59 @@ where
                 st.trace.push(format!("alias = h{a}; alias.push({k1}); h{a}.push({k2}); alias.len() [script]"));
                 if n != storages[*s].len() {
                     bail!("alias-push", "alias.len() = {n} after pushes through both names, expected {}", storages[*s].len());
+                }
+            }
+            17 | 18 => {
+                // `t += [a]` on a copy of the handle is `t = t + [a]`: a new list, the operand stays as it was
+                let (l, s) = slots[a].as_ref().unwrap();
+                let (k1, k2) = (op[2] as u64 % 7, op[3] as u64 % 7);
+                let before = storages[*s].clone();
+                let t = sc.pluseq.call(l.clone(), T::from_key(k1), T::from_key(k2));
+                let got: Vec<u64> = t.to_vec().iter().map(|x| x.key()).collect();
+                let mut want = before.clone();
+                want.extend([norm::<T>(k1), norm::<T>(k1), norm::<T>(k2)]);
+                st.trace.push(format!("t = h{a}; t += [{k1}]; t += [{k1}, {k2}]; t [script]"));
+                if got != want {
+                    bail!("plus-assign", "t holds {got:?} after the two `+=`, expected {want:?}");
+                }
+                let now: Vec<u64> = l.to_vec().iter().map(|x| x.key()).collect();
+                if now != before {
+                    bail!("plus-assign", "`t += ..` changed the list that t was copied from: {now:?}, it held {before:?}");
+                }
+                // the result has storage of its own: pushing to it does not show through h{a}
+                t.push(T::from_key(k2));
+                if l.len() != before.len() {
+                    bail!("plus-assign", "a push to the result of `+=` is visible through the operand (len {} instead of {})", l.len(), before.len());
+                }
+                st.aliases_used = true;
+                if code == 18 {
+                    storages.push({
+                        let mut w = want.clone();
+                        w.push(norm::<T>(k2));
+                        w
+                    });
+                    slots[b] = Some((t, storages.len() - 1));
+                    st.trace.push(format!("h{b} = t; t.push({k2}) [rust]"));
+                }
+            }
+            19 => {
+                // a for loop over a list that grows through an alias while it runs visits the new elements too
+                let (l, s) = slots[a].as_ref().unwrap();
+                let n0 = storages[*s].len();
+                let cap = n0 as u64 + op[3] as u64 % 4;
+                let got = sc.growfor.call(l.clone(), cap) as usize;
+                let mut i = 0;
+                while i < storages[*s].len() {
+                    if (storages[*s].len() as u64) < cap {
+                        let x = storages[*s][i];
+                        storages[*s].push(x);
+                    }
+                    i += 1;
+                }
+                st.aliases_used = true;
+                st.trace.push(format!("for x in h{a} {{ if alias.len() < {cap} {{ alias.push(x) }} }} [script]"));
+                if got != i {
+                    bail!("for-sees-pushes", "the loop ran {got} times over a list that started with {n0} elements and grew to {} while it ran", storages[*s].len());
                 }
             }
             _ => {
